@@ -10,6 +10,7 @@ import (
 	"math/big"
 	"os"
 	"reflect"
+	"runtime"
 	"sort"
 	"strconv"
 	"sync"
@@ -321,4 +322,16 @@ func RunGoroutines(env func() bool, bodies ...func()) bool {
 			}
 		}
 	}
+}
+
+// AllocatedBy reports the bytes allocated while f runs (natively, via runtime.MemStats; under
+// the executor f just runs, allocation sizes being checked by the executor's own obligation on
+// every make(), and the result is 0).
+func AllocatedBy(f func()) uint64 {
+	var m0, m1 runtime.MemStats
+	runtime.GC()
+	runtime.ReadMemStats(&m0)
+	f()
+	runtime.ReadMemStats(&m1)
+	return m1.TotalAlloc - m0.TotalAlloc
 }
